@@ -116,6 +116,11 @@ func Families() []Named {
 		// right-hand sides of more than 16 symbols
 		{"rhs-17-right-recursive", Parse("L", abc[:2], "L: TA TA TA TA TA TA TA TA TA TA TA TA TA TA TA TA L | TB")},
 		{"rhs-18-nonterminal-at-16", Parse("S", abc[:3], "S: TC | TA TA TA TA TA TA TA TA TA TA TA TA TA TA TA TA A TB ; A: TC | TA A")},
+		// a goto set with two kernel items (dot at the end / before a terminal) reached from two
+		// predecessors that list them in different order
+		{"kernel-order", Parse("S", nil, "S: 'p' M | 'q' N ; M: C | A ; N: A | E ; C: 'y' B 'c' ; A: 'y' 'x' ; E: 'y' B 'z' ; B: 'x'")},
+		// names with letters beyond ASCII (yaccgo accepts Unicode letters in identifiers)
+		{"unicode-names", Parse("S", []string{"TÄ", "TB"}, "S: größe TÄ | TÄ ; größe: TÄ TB | größe TB")},
 		{"nonassoc-cmp", Parse("E", []string{"TA"}, "E: E '<' E | E '+' E | TA").WithPrec("nonassoc '<'", "left '+'")},
 	}
 }
@@ -124,4 +129,8 @@ func Families() []Named {
 type Named2 struct {
 	Name string
 	Text string
+	// NoEdits: use the whole text only (no prefixes, no edits)
+	NoEdits bool
+	// Epilogue: the program section of the text when it is known exactly ("" = unknown)
+	Epilogue string
 }
